@@ -254,6 +254,8 @@ def make_zoo():
         "\x00", "\ud800", "é" * 3, "a" * 1000, b"\xff",
         {None: 1}, {(1, 2): 1}, {frozenset([1]): 1}, {1.5: 1}, {b"k": 1}, {10 ** 30: 1},
         {E: 1}, {True: 1},
+        # an int beyond CPython's int -> decimal-string limit (4300 digits): its repr() raises
+        register("int_5001_digits", 10 ** 5000),
         # several mutually unorderable keys / members at once
         {None: 1, (1, 2): 2, "k": 3, 1.5: 4, b"k": 5}, [None, (1, 2), "k", 1.5, b"k", float("nan")],
     ]
